@@ -22,7 +22,7 @@ func (c08) ID() string { return "C08" }
 func (c08) Meta(tier string) engine.Meta {
 	return engine.Meta{
 		Level: "model_checking",
-		Rule: "operator tables: two infix symbols (+ *) × {left, right, non-assoc} × binding power {3, 3.5, 4}, one prefix (~) and one postfix (!) symbol (quick: 81 tables with fixed prefix / postfix powers 3.75 / 3.25; thorough: prefix ∈ {3.25,3.75,10} × postfix ∈ {3.25,3.75,11} = 729 tables), the same 81 shapes at three other magnitudes of binding power (33…1000, 10^6…3·10^7, 0.0001…0.5), plus the built-in table, a table of identifier-like operators, three declaration orders of a table whose symbols are prefixes of one another (< <= << * **), 45 tables whose powers lie around the grammar's own call / member powers (11.5 … 13.5), and a literal-forms table. For every table ALL token sequences up to the length bound over the family's alphabet are lexed and parsed by the real lexer + parser and by the reference (hand-written scanner + shunting-yard operator-precedence parser): accept / reject must agree, the trees must be identical, and every node's recorded span (rune range, line, column) must equal the span of the tokens it was built from; one family separates tokens by newlines so that lines and columns vary. A case is (family, table, first tokens); its run enumerates every suffix. non-trivial = every case (thousands of sequences each)",
+		Rule: "operator tables: two infix symbols (+ *) × {left, right, non-assoc} × binding power {3, 3.5, 4}, one prefix (~) and one postfix (!) symbol (quick: 81 tables with fixed prefix / postfix powers 3.75 / 3.25; thorough: prefix ∈ {3.25,3.75,10} × postfix ∈ {3.25,3.75,11} = 729 tables), the same 81 shapes at three other magnitudes of binding power (33…1000, 10^6…3·10^7, 0.0001…0.5), plus the built-in table, a table of identifier-like operators, three declaration orders of a table whose symbols are prefixes of one another (< <= << * **), 45 tables whose powers lie around the grammar's own call / member powers (11.5 … 13.5), and a literal-forms table. For every table ALL token sequences up to the length bound over the family's alphabet are lexed and parsed by the real lexer + parser and by the reference (hand-written scanner + shunting-yard operator-precedence parser): accept / reject must agree, the trees must be identical, and every node's recorded span (rune range, line, column) must equal the span of the tokens it was built from; one family separates tokens by newlines so that lines and columns vary; for every ninth table one parser OBJECT additionally parses all sequences of a case (accepted and rejected interleaved) and must agree with a fresh parser. A case is (family, table, first tokens); its run enumerates every suffix. non-trivial = every case (thousands of sequences each)",
 		Bound: "sequences: full alphabet (13 symbols) length <= 5; operator-only, ternary and parenthesis alphabets (5 symbols) length <= 7 (thorough 9); built-in comparison / parenthesis alphabet and conditional-inside-list/map-literal alphabet {a ? : [ ] , +} (7 symbols each) length <= 7; built-in table (15 symbols) length <= 5; literal forms (9 symbols) length <= 6 (thorough 7)",
 		Assumptions: []string{"precedence semantics: an operator binds an operand while its left power exceeds the right power of what is open to its left; right-associative operators and ?: use the largest power below their own on the right; punctuation, call '(' 12, member '.' and subscript '[' 13, '?' 2 are fixed forms (parser/factory.go)"},
 	}
@@ -163,7 +163,7 @@ func c08Families() []c08Family {
 		{"builtin", []string{"a", "1", "+", "-", "*", "^", "<", "==", "&&", "!", "not", "?", ":", "(", ")"}, func(string) [][]ref.Op { return [][]ref.Op{real.BuiltInOps()} }, 2, func(string) int { return 3 }, " "},
 		{"overlap", []string{"a", "<", "<=", "<<", "*", "**", "+", "(", ")"}, overlapTables, 2, func(string) int { return 3 }, " "},
 		{"neighbours", []string{"a", "+", "~", "!", ".", "[", "]", "(", ")"}, neighbourTables, 2, func(string) int { return 3 }, " "},
-		{"identop", []string{"a", "in", "not", "+", "(", ")", "ina"}, oneTable([]ref.Op{{Sym: "in", BP: 3.5, Fixity: "infixn"}, {Sym: "not", BP: 3.75, Fixity: "prefix"}, {Sym: "+", BP: 4, Fixity: "infixl"}}), 2, func(string) int { return 4 }, " "},
+		{"identop", []string{"a", "in", "not", "+", "(", ")", "ina", "not_a", "in_", "_in"}, oneTable([]ref.Op{{Sym: "in", BP: 3.5, Fixity: "infixn"}, {Sym: "not", BP: 3.75, Fixity: "prefix"}, {Sym: "+", BP: 4, Fixity: "infixl"}}), 2, func(string) int { return 4 }, " "},
 		{"nonascii-op", []string{"a", "ˆ", "+ˆ", "+", "(", ")", "é"}, oneTable([]ref.Op{{Sym: "ˆ", BP: 9, Fixity: "infixr"}, {Sym: "+ˆ", BP: 7.5, Fixity: "infixn"}, {Sym: "+", BP: 7, Fixity: "infixl"}, {Sym: "é", BP: 10, Fixity: "prefix"}}), 2, func(string) int { return 4 }, " "},
 		{"tern-lit", []string{"a", "?", ":", "[", "]", ",", "+"}, func(string) [][]ref.Op { return [][]ref.Op{real.BuiltInOps()} }, 2, func(string) int { return 5 }, " "},
 		{"literals", []string{"a", "[", "]", "{", "}", ":", ",", "(", ")"}, oneTable(nil), 2, func(t string) int {
@@ -232,12 +232,37 @@ func (c08) Run(c *engine.Case) *engine.Result {
 	lx := real.NewLexer(rops)
 	res := &engine.Result{NonTrivial: true}
 	outcomes := map[string]int{}
+	// every ninth table (and every single-table family): ONE parser object also parses every
+	// sequence of the case, accepted and rejected ones interleaved, and must agree with a fresh one
+	var shared real.Parser
+	if ti%9 == 0 {
+		shared = real.NewParser(rops)
+	}
 	check := func(toks []string) {
 		s := strings.Join(toks, f.sep)
 		res.Execs++
 		res.States++
 		engine.HeartbeatCheap()
 		vs, oc := judgeParse(s, ops, rops, lx)
+		if shared != nil && len(vs) == 0 {
+			if lr := lx.Lex(s); lr.Err == "" {
+				fresh := real.ParseToks(rops, lr.Toks)
+				again := real.ParseWith(shared, lr.Toks)
+				res.Execs++
+				fs, as := "reject", "reject"
+				if fresh.Err == "" {
+					n := real.ToNode(fresh.Tree)
+					fs = n.String() + "|" + strings.Join(n.Spans(), ",")
+				}
+				if again.Err == "" {
+					n := real.ToNode(again.Tree)
+					as = n.String() + "|" + strings.Join(n.Spans(), ",")
+				}
+				if fs != as {
+					vs = append(vs, vf("parser-reuse-changes-result", "%q under {%s}: a parser object that has parsed other inputs before gives %s, a fresh one %s", s, tableStr(ops), trunc200(as), trunc200(fs)))
+				}
+			}
+		}
 		outcomes[oc]++
 		if len(vs) > 0 && len(res.Violations) < 6 {
 			res.Violations = append(res.Violations, vs...)
